@@ -37,11 +37,11 @@ import (
 	"unicode/utf8"
 
 	"github.com/elastic/go-seccomp-bpf/arch"
+	"verif/harness/internal/vd"
 )
 
 func init() {
 	streamFuncs["tables"] = tablesStream
-	noModelStreams["tables"] = true
 	replayFuncs["GETINFO"] = replayTables
 	replayFuncs["TNAME"] = replayTables
 	replayFuncs["TNUM"] = replayTables
@@ -352,6 +352,27 @@ func tablesStream(r *runner, rng *rand.Rand) error {
 			m := Mismatch{Case: id, Request: req, Go: got, Model: want, Key: "getinfo:" + lowerModel(name),
 				FailingInput: fmt.Sprintf("arch.GetInfo(%q) = %s; the property requires %s", name, got, want)}
 			return tmismatch(r, m)
+		}
+		// the Lean reference (Arch.getInfo, tied to the regenerated function body by C12.getinfo_tie)
+		if r.model != nil && utf8.ValidString(name) && len(name) < 4096 {
+			reply, err := r.model.Ask("GI " + vd.Hex(runtime.GOARCH) + " " + vd.Hex(name))
+			if err != nil {
+				r.sum.Error = err.Error()
+				return true
+			}
+			r.tag("getinfo:compared-with-the-lean-reference")
+			agree := false
+			switch {
+			case strings.HasPrefix(reply, "OK "):
+				f := strings.Fields(reply)
+				agree = len(f) == 3 && strings.HasPrefix(got, "OK name="+f[1]+" numbers="+f[2]+" ")
+			case strings.HasPrefix(reply, "ERR "):
+				agree = got == "ERR unsupported arch: "+vd.Unhex(strings.TrimPrefix(reply, "ERR "))
+			}
+			if !agree {
+				return tmismatch(r, Mismatch{Case: id, Request: req, Go: got, Model: reply, Key: "getinfo-lean:" + lowerModel(name),
+					FailingInput: fmt.Sprintf("arch.GetInfo(%q) = %s; the reference Arch.getInfo says %s", name, got, reply)})
+			}
 		}
 		return false
 	}
